@@ -775,6 +775,12 @@ impl<T: Config> UdpProtocol<T> {
             let last_recv_frame = self.last_recv_frame();
             self.recv_inputs
                 .retain(|&k, _| k >= last_recv_frame - 2 * self.max_prediction as i32);
+        } else {
+            // We no longer hold the frame this packet is encoded against, so we cannot decode
+            // it. Still acknowledge what we have: the sender then drops everything up to that
+            // frame and encodes its next packet against a frame we do hold. Without this, one
+            // lost ack could leave the sender retransmitting from a pruned reference forever.
+            self.send_input_ack();
         }
     }
 
